@@ -2,6 +2,7 @@ import OxiModel.Filters
 import OxiModel.Spec.Pixel
 import OxiModel.LosslessProofs
 import OxiModel.FilterImage
+import OxiModel.Props.C01
 /-
   C03 — alpha optimisation may only change colour under fully transparent pixels.
 -/
@@ -582,6 +583,119 @@ theorem optimizeAlpha_chain_rowKeep (bpp cb m : Nat) (prev : Bytes) (hb : 0 < bp
     obtain ⟨hl1, hk1⟩ := optimizeAlpha_rowKeep ft bpp cb m data prev hb hcb hd hp
     obtain ⟨hl2, hk2⟩ := ih (optimizeAlpha ft bpp data prev cb) (by rw [hl1, hd]) (by rw [hl1, hp])
     exact ⟨by rw [hl2, hl1], RowKeep_trans hk1 hk2⟩
+
+
+/-! ### the alpha-flagged palette reductions -/
+
+def bl (c : Rgba) : Rgba := if c.a = 0 then ⟨0, 0, 0, c.a⟩ else c
+
+theorem blackenTransparent_eq (p : List Rgba) : blackenTransparent p = p.map bl := rfl
+
+theorem getD_map_bl (p : List Rgba) (k : Nat) : (p.map bl).getD k blackEntry = bl (p.getD k blackEntry) := by
+  simp only [List.getD_eq_getElem?_getD, List.getElem?_map]
+  cases p[k]? <;> rfl
+
+theorem palStep_true (palette : List Rgba) (st : List Rgba × List (Nat × Nat) × Bool) (k : Nat) :
+    palStep palette true st k = palStep (blackenTransparent palette) false st k := by
+  unfold palStep
+  simp only [Bool.true_and, Bool.false_and, Bool.false_eq_true, if_false]
+  have h := getD_map_bl palette k
+  simp only [blackEntry] at h
+  rw [blackenTransparent_eq, h]
+  simp only [bl, decide_eq_true_eq]
+  rfl
+
+theorem samePicture_visible {a b : Img} (h : samePicture a b) : sameVisiblePicture a b := by
+  refine ⟨h.1, h.2.1, h.2.2.1, by rw [h.2.2.2], ?_⟩
+  intro p hp
+  rw [h.2.2.2] at hp
+  obtain ⟨k, hk⟩ := List.getElem?_of_mem hp
+  rw [List.getElem?_zip_eq_some] at hk
+  have : p.1 = p.2 := by
+    have h1 := hk.1; rw [hk.2] at h1; exact (Option.some.inj h1).symm
+  rw [this]; exact alphaEq_refl _
+
+theorem sameVisiblePicture_trans {a b c : Img} (h1 : sameVisiblePicture a b) (h2 : sameVisiblePicture b c) :
+    sameVisiblePicture a c := by
+  obtain ⟨w1, hh1, i1, l1, z1⟩ := h1
+  obtain ⟨w2, hh2, i2, l2, z2⟩ := h2
+  refine ⟨w1.trans w2, hh1.trans hh2, i1.trans i2, l1.trans l2, ?_⟩
+  intro p hp
+  obtain ⟨k, hk⟩ := List.getElem?_of_mem hp
+  rw [List.getElem?_zip_eq_some] at hk
+  have hka : k < (pixelColours a).length := lt_of_getElem?_some _ _ _ hk.1
+  have hkb : k < (pixelColours b).length := by rw [← l1]; exact hka
+  have e1 : ((pixelColours a)[k], (pixelColours b)[k]) ∈ List.zip (pixelColours a) (pixelColours b) := by
+    apply List.mem_iff_getElem?.mpr
+    exact ⟨k, by rw [List.getElem?_zip_eq_some]; exact ⟨List.getElem?_eq_getElem hka, List.getElem?_eq_getElem hkb⟩⟩
+  have hkc : k < (pixelColours c).length := by rw [← l2]; exact hkb
+  have e2 : ((pixelColours b)[k], (pixelColours c)[k]) ∈ List.zip (pixelColours b) (pixelColours c) := by
+    apply List.mem_iff_getElem?.mpr
+    exact ⟨k, by rw [List.getElem?_zip_eq_some]; exact ⟨List.getElem?_eq_getElem hkb, List.getElem?_eq_getElem hkc⟩⟩
+  have a1 := z1 _ e1
+  have a2 := z2 _ e2
+  have hp1 : p.1 = (pixelColours a)[k] := by
+    have := hk.1; rw [List.getElem?_eq_getElem hka] at this; exact (Option.some.inj this).symm
+  have hp2 : p.2 = (pixelColours c)[k] := by
+    have := hk.2; rw [List.getElem?_eq_getElem hkc] at this; exact (Option.some.inj this).symm
+  rw [hp1, hp2]
+  exact alphaEq_trans a1 a2
+
+/-- blackening the fully transparent palette entries changes only invisible colour -/
+theorem blacken_visible (w hh : Nat) (il : Bool) (p : List Rgba) (data : Bytes) :
+    sameVisiblePicture ⟨⟨w, hh, .indexed p, 8, il⟩, data⟩ ⟨⟨w, hh, .indexed (blackenTransparent p), 8, il⟩, data⟩ := by
+  have hb1 : Img.bppBytes ⟨⟨w, hh, .indexed p, 8, il⟩, data⟩ = 1 := rfl
+  have hb2 : Img.bppBytes ⟨⟨w, hh, .indexed (blackenTransparent p), 8, il⟩, data⟩ = 1 := rfl
+  refine ⟨rfl, rfl, rfl, ?_, ?_⟩
+  · simp only [pixelColours, storagePixels, hb1, hb2, List.length_map]
+  · intro q hq
+    simp only [pixelColours, storagePixels, hb1, hb2, chunksExact_one, List.map_map, List.zip_map', List.mem_map] at hq
+    obtain ⟨b, _, rfl⟩ := hq
+    simp only [Function.comp, samplesOf, if_neg (by decide : ¬ ((8 : Nat) = 16)), List.map_cons, List.map_nil,
+      C01.colourOf_indexed_getD, blackenTransparent_eq, getD_map_bl]
+    generalize p.getD b.toNat blackEntry = c
+    unfold bl
+    by_cases h : c.a = 0
+    · simp only [h, if_true]
+      exact ⟨by simp [entryPx, h], fun hne => by simp [entryPx, h] at hne⟩
+    · simp only [h, if_false]; exact alphaEq_refl _
+
+theorem palFold_true (palette : List Rgba) (l : List Nat) (st : List Rgba × List (Nat × Nat) × Bool) :
+    l.foldl (palStep palette true) st = l.foldl (palStep (blackenTransparent palette) false) st := by
+  induction l generalizing st with
+  | nil => rfl
+  | cons k l ih => simp only [List.foldl_cons, palStep_true, ih]
+
+/-- with alpha optimisation the palette is condensed after blackening its fully transparent entries -/
+theorem reducedPalette_true_eq (w hh : Nat) (il : Bool) (p : List Rgba) (data : Bytes) :
+    reducedPalette ⟨⟨w, hh, .indexed p, 8, il⟩, data⟩ true =
+      reducedPalette ⟨⟨w, hh, .indexed (blackenTransparent p), 8, il⟩, data⟩ false := by
+  unfold reducedPalette
+  simp only [ne_eq, not_true_eq_false, if_false, palFold_true]
+  have : (blackenTransparent p).length = p.length := by simp [blackenTransparent_eq]
+  rw [this]
+
+/-- **Condensing the palette under alpha optimisation changes only invisible colour** (whole image) -/
+theorem reduced_palette_visible (w hh : Nat) (il : Bool) (p : List Rgba) (data : Bytes) (j : Img)
+    (h : reducedPalette ⟨⟨w, hh, .indexed p, 8, il⟩, data⟩ true = some j) :
+    sameVisiblePicture ⟨⟨w, hh, .indexed p, 8, il⟩, data⟩ j := by
+  rw [reducedPalette_true_eq] at h
+  exact sameVisiblePicture_trans (blacken_visible w hh il p data)
+    (samePicture_visible (C01.reduced_palette_lossless _ j h))
+
+theorem indexedToChannels_true_eq (w hh : Nat) (il : Bool) (p : List Rgba) (data : Bytes) (ag : Bool) :
+    indexedToChannels ⟨⟨w, hh, .indexed p, 8, il⟩, data⟩ ag true =
+      indexedToChannels ⟨⟨w, hh, .indexed (blackenTransparent p), 8, il⟩, data⟩ ag false := by
+  unfold indexedToChannels
+  simp only [if_true, Bool.false_eq_true, if_false]
+
+/-- **Palette → channels under alpha optimisation changes only invisible colour** (whole image) -/
+theorem indexed_to_channels_visible (w hh : Nat) (il : Bool) (p : List Rgba) (data : Bytes) (ag : Bool) (j : Img)
+    (h : indexedToChannels ⟨⟨w, hh, .indexed p, 8, il⟩, data⟩ ag true = some j) :
+    sameVisiblePicture ⟨⟨w, hh, .indexed p, 8, il⟩, data⟩ j := by
+  rw [indexedToChannels_true_eq] at h
+  exact sameVisiblePicture_trans (blacken_visible w hh il p data)
+    (samePicture_visible (C01.indexed_to_channels_lossless _ j ag h))
 
 
 /-- Non-vacuity: a Sub rewrite of a transparent pixel between two opaque ones. -/
